@@ -3,7 +3,7 @@
 pfx=$1; id=$2; shift 2
 for k in 1 2 3; do
   d=$pfx-$id/$k; [ -d $d ] || continue
-  python3 /verif/tools/seedtest.py $d --keep ${id}-r2-$k "$@" 2>&1 | python3 -c "
+  python3 /verif/tools/seedtest.py $d --keep ${id}-${RTAG:-r2}-$k "$@" 2>&1 | python3 -c "
 import sys,json
 d=json.load(sys.stdin); print(d['name'],'valid',d['valid_seed'],'det',d['detected_by'],'MISSED' if d['missed_by'] else '',d['missed_by'],d.get('error') or '')
 for k,v in (d['detail'] or {}).items(): print('   ',k,v['rc'],[x[:220] for x in v['first'][:1]],'noinput' if v['no_input'] else '')
